@@ -31,7 +31,7 @@ var rotCommands = [][]string{
 	{"total"}, {"total", "--diff"}, {"total", "--now"}, {"total", "--today", "--now"}, {"total", "--tag=x"}, {"total", "--since=2024-03-10"},
 	{"report"}, {"report", "--aggregate=week"}, {"report", "--aggregate=month", "--fill"}, {"report", "--aggregate=quarter", "--diff"},
 	{"report", "--aggregate=year", "--decimal"}, {"report", "--fill", "--now"}, {"report", "--chart"}, {"report", "--fill"}, {"report", "--fill", "--aggregate=week"}, {"report", "--fill", "--aggregate=quarter"}, {"report", "--aggregate=year", "--fill"}, {"today", "--now"}, {"print", "--with-totals", "--sort=desc"}, {"total", "--this-year"}, {"total", "--last-week"}, {"report", "--period=9999"}, {"total", "--until=0000-01-05"},
-	{"tags"}, {"tags", "--values"}, {"tags", "--count"},
+	{"tags"}, {"tags", "--values"}, {"tags", "--count"}, {"tags", "--values", "--no-style"}, {"tags", "--values", "--count"}, {"report", "--no-style"}, {"today", "--no-style"}, {"print", "--with-totals", "--no-style"},
 	{"today"}, {"today", "--diff", "--now"},
 	{"json"}, {"json", "--pretty"}, {"json", "--now"},
 	{"track", "1h30m #x"}, {"track", "--date=2024-03-13", "8:00 - 9:00"}, {"start"}, {"start", "--round=15m", "--summary=s"}, {"start", "--resume"},
